@@ -33,6 +33,10 @@ pub trait Subject: RngCore + Clone + Debug + Send + Sync + Sized + 'static {
     fn s_de_in_place(&mut self, _b: &[u8]) -> Option<Result<(), String>> {
         None
     }
+    /// `Default::default()` if the type implements `Default` (a seedless constructor)
+    fn s_default() -> Option<Self> {
+        None
+    }
     /// two values read one after the other from one byte stream
     fn s_de_two(_b: &[u8]) -> Option<Result<(Self, Self), String>> {
         None
@@ -72,7 +76,14 @@ impl<T: Subject> Gen for Wrap<T> {
     }
     fn eq_dyn(&self, other: &dyn Gen) -> Option<bool> {
         let o = other.as_any().downcast_ref::<Wrap<T>>().expect("eq_dyn across types");
-        self.0.s_eq(&o.0)
+        // a panic inside `==` is the crate's, not the harness's: counted and reported by C10 / C14
+        match std::panic::catch_unwind(std::panic::AssertUnwindSafe(|| self.0.s_eq(&o.0))) {
+            Ok(r) => r,
+            Err(_) => {
+                EQ_PANICS.fetch_add(1, std::sync::atomic::Ordering::Relaxed);
+                None
+            }
+        }
     }
     fn debug(&self, alternate: bool) -> String {
         if alternate {
@@ -98,6 +109,10 @@ impl<T: Subject> Gen for Wrap<T> {
 macro_rules! subject {
     ($t:ty; jump=$j:tt, eq=$e:tt, serde=$s:tt) => {
         impl Subject for $t {
+            fn s_default() -> Option<Self> {
+                // autoref dispatch on the concrete type: Some(Default::default()) iff the type is Default
+                (&DefaultProbe::<$t>(PhantomData)).get()
+            }
             subject!(@jump $j);
             subject!(@eq $e);
             subject!(@serde $s);
@@ -392,6 +407,9 @@ impl<T: SeedSubject> GenType for TypeOf<T> {
     fn de_json(&self, bytes: &[u8]) -> Option<Result<Box<dyn Gen>, String>> {
         T::s_de_json(bytes).map(|r| r.map(|g| Box::new(Wrap(g)) as Box<dyn Gen>))
     }
+    fn default_ctor(&self) -> Option<Box<dyn Gen>> {
+        T::s_default().map(|g| Box::new(Wrap(g)) as Box<dyn Gen>)
+    }
     fn de_two(&self, bytes: &[u8]) -> Option<Result<(Box<dyn Gen>, Box<dyn Gen>), String>> {
         T::s_de_two(bytes).map(|r| r.map(|(a, b)| (Box::new(Wrap(a)) as Box<dyn Gen>, Box::new(Wrap(b)) as Box<dyn Gen>)))
     }
@@ -512,9 +530,14 @@ fn sweep<T: SeedSubject>(info: &TypeInfo, kind: Option<Kind>, job: &SweepJob) ->
                         if got != exp {
                             bad = Some(format!("output {:#x} != reference {:#x}", got, exp));
                         } else if *check_state {
-                            let e = T::from_seed(mk_seed::<T>(&succ));
+                            let mut e = T::from_seed(mk_seed::<T>(&succ));
                             if g.s_eq(&e) != Some(true) {
-                                bad = Some("successor state != reference successor".to_string());
+                                // `==` is another property's subject: decide on the following outputs
+                                let words = 2 * info.seed_len / (info.word_bits / 8) + 4;
+                                let differ = (0..words).any(|_| if info.word_bits == 32 { g.next_u32() != e.next_u32() } else { g.next_u64() != e.next_u64() });
+                                if differ {
+                                    bad = Some("successor state != reference successor".to_string());
+                                }
                             }
                         }
                         bad
@@ -641,6 +664,24 @@ pub struct JitterGen<F: Fn() -> u64 + Send + Sync + Clone + 'static> {
     /// duplicates the generator by plain copy if its type is `Copy` (decided where the concrete timer
     /// type is known, by autoref dispatch)
     copy_fn: Option<fn(&JitterRng<F>) -> Option<JitterRng<F>>>,
+}
+
+pub struct DefaultProbe<T>(pub PhantomData<T>);
+pub trait ViaDefault<T> {
+    fn get(&self) -> Option<T>;
+}
+impl<T: Default> ViaDefault<T> for DefaultProbe<T> {
+    fn get(&self) -> Option<T> {
+        Some(T::default())
+    }
+}
+pub trait NoDefault<T> {
+    fn get(&self) -> Option<T>;
+}
+impl<T> NoDefault<T> for &DefaultProbe<T> {
+    fn get(&self) -> Option<T> {
+        None
+    }
 }
 
 /// autoref-based dispatch: `(&Dup(&x)).dup()` is a plain copy when `T: Copy`, None otherwise
@@ -957,6 +998,9 @@ impl Registry for Reg {
     fn eq_ne_inconsistencies(&self) -> u64 {
         EQ_NE_INCONSISTENT.load(std::sync::atomic::Ordering::Relaxed)
     }
+    fn eq_panics(&self) -> u64 {
+        EQ_PANICS.load(std::sync::atomic::Ordering::Relaxed)
+    }
     fn isaac_array_probe(&self) -> (u64, Option<String>) {
         fn probe<C: CoreSubject>(name: &str, flip: impl Fn(&mut C::Results, usize)) -> (u64, Option<String>)
         where
@@ -1032,6 +1076,8 @@ fn assert_send_sync() {
 // formats every record at every level, so that the argument expressions of the crate's log
 // statements are evaluated in every check
 // ------------------------------------------------------------------------------------------------
+/// comparisons (`==` / `!=`) that panicked
+pub static EQ_PANICS: std::sync::atomic::AtomicU64 = std::sync::atomic::AtomicU64::new(0);
 /// comparisons in which `a != b` was not the negation of `a == b`
 pub static EQ_NE_INCONSISTENT: std::sync::atomic::AtomicU64 = std::sync::atomic::AtomicU64::new(0);
 pub static LOG_RECORDS: std::sync::atomic::AtomicU64 = std::sync::atomic::AtomicU64::new(0);
